@@ -1,6 +1,6 @@
 (* Glue.v — parsing of case literals and comparators used by the generated case
    files. Never a second copy of a model function. *)
-From MV Require Import Base Record.
+From MV Require Import Base Record Regex.
 From Coq Require Import String Ascii.
 Open Scope list_scope.
 
@@ -84,4 +84,26 @@ Definition asm_obs_ok (o : @outcome (list code)) (x : asm_obs) : bool :=
       (Nat.eqb a a' && Nat.eqb b b') || (Nat.eqb a b' && Nat.eqb b a')
   | EMissing k, OMissing k' => codes_eqb k (okey (dna k'))
   | _, _ => false
+  end.
+
+(* ---------- comparison of patterns (structure texts tokenised by the harness) -------- *)
+
+Definition item_eqb (a b : item) : bool :=
+  match a, b with
+  | Atom c, Atom d | StarG c, StarG d | StarL c, StarL d => codes_eqb c d
+  | Open, Open | Close, Close => true
+  | _, _ => false
+  end.
+
+Fixpoint pattern_eqb (a b : pattern) : bool :=
+  match a, b with
+  | [], [] => true
+  | x :: a', y :: b' => item_eqb x y && pattern_eqb a' b'
+  | _, _ => false
+  end.
+
+Fixpoint find_idx {A} (f : A -> bool) (l : list A) (i : nat) : option nat :=
+  match l with
+  | [] => None
+  | x :: r => if f x then Some i else find_idx f r (S i)
   end.
